@@ -78,13 +78,19 @@ def run(ctx):
     d = common.scratch()
     rng = random.Random(ctx.seed * 7919 + 5)
     # ---- 1. the design: exhaustive model checking of TpMsg
-    for cfg in (["MC_TpMsg.cfg", "MC_TpMsg_B.cfg"] if ctx.quick else ["MC_TpMsg.cfg", "MC_TpMsg_B.cfg", "MC_TpMsg_C.cfg"]):
+    for cfg in ["MC_TpMsg.cfg", "MC_TpMsg_B.cfg"]:
         r = common.tlc("MC_TpMsg", cfg=cfg, workers=6, coverage=True, timeout=1500, xmx="12g")
         ctx.tlc_stats(r, cfg)
         if r.rc != 0:
             ctx.fail("model:TpMsg:" + (r.violation or "error"), r.out[-3000:], {"cfg": cfg})
         never = [a for a, (taken, _) in r.coverage.items() if taken == 0 and a not in ("Close",)]
         if never: raise common.Infra("vacuity: actions never taken in %s: %s" % (cfg, never))
+    if not ctx.quick:
+        # the 5-message plan is beyond exhaustive reach in the thorough budget: random behaviours instead
+        r = common.tlc("MC_TpMsg", cfg="MC_TpMsg_C.cfg", workers=6, simulate=60000, depth=80, seed=ctx.seed, timeout=1500, xmx="8g")
+        ctx.tlc_stats(r, "MC_TpMsg_C.cfg (-simulate num=60000 per worker, depth 80)")
+        if r.rc != 0:
+            ctx.fail("model:TpMsg:simulation:" + (r.violation or "error"), r.out[-3000:], {"cfg": "MC_TpMsg_C.cfg"})
     r = common.tlc("MC_TpMsg", cfg="MC_TpMsg_live.cfg", workers=4, timeout=900)
     ctx.tlc_stats(r, "MC_TpMsg_live.cfg (liveness EventuallyRuns under fairness)")
     if r.rc != 0:
